@@ -8,6 +8,7 @@ CONSTANTS
   ScanMemo = "none"
   OperandScope = "per call"
   SubqueryColumns = "per table object"
+  ResultScope = "per execute call"
   JobSet = "memo"
 INIT Init
 NEXT Next
